@@ -416,6 +416,8 @@ func init() {
 			{name: "inProcess", n: tierN(7000, 150000), unit: 1750, run: c02InProcess, floors: map[string]int64{"accepted_repeated": 5000, "rejected_repeated": 300}},
 			{name: "mapOrder", n: tierN(4000, 40000), unit: 1000, run: c02MapOrder, floors: map[string]int64{"decimal_weight_requests_repeated": 3000},
 				note: ">=3 criteria with weights / k in 0.05 steps, integer performances and thresholds, 8 (thorough 16) repetitions each: a total summed in map order differs in the last bit between calls and flips comparisons that sit exactly on a boundary"},
+			{name: "surplusKeys", n: tierN(1500, 30000), unit: 750, run: c02SurplusKeys, floors: map[string]int64{"surplus_key_requests_repeated": 1400},
+				note: "satisfaction / aspect elimination with explicit levels that also name criteria the request does not declare (half of them levels nobody meets), 12 repetitions each: verdict and bytes may not depend on the walk order of a level's map"},
 			{name: "longSeries", n: tierN(2, 6), unit: 1, run: c02LongSeries, floors: map[string]int64{"long_series_repeated": 2},
 				note: "satisfaction heuristic with a subtractive coefficient of 2e-7 / 3e-7 (3 to 5 million levels, seconds of work), 3 repetitions"},
 			{name: "large", n: tierN(48, 600), unit: 4, run: c02Large, floors: map[string]int64{"large_repeated": 30},
